@@ -202,15 +202,6 @@ def defect_classes(pre, op):
         for l in g.ids(LINK):
             if g.name(l) == a[0] and any(g.typ(c) == 'ServicePort' for c in g.nb(l, 'connects', CP)):
                 out.append('strands')
-    if kind in ('remove_ns', 'node_remove_ns'):
-        name = a[0] if kind == 'remove_ns' else a[1]
-        for s in g.ids(NS):
-            if g.name(s) == name:
-                ifs = ifs_of_ns(s)
-                # an interface of the service (its own service ports included) faces a ServicePort of another service
-                if any(g.typ(y) == 'ServicePort' and s not in g.nb(y, 'connects', NS)
-                       for i in ifs for (l, y) in g.peers(i)) or sub_peered_under(ifs):
-                    out.append('strands')
     if kind in ('remove_node', 'remove_facility', 'remove_switch', 'remove_component'):
         # a service OWNED by the removed node / component carries service ports (peer() or connect_interface on a
         # node- or component-level service): the disconnect loop walks them as if they were node interfaces
@@ -226,15 +217,6 @@ def defect_classes(pre, op):
                     owned += ifs_of_node(n)
         if any(g.typ(i) == 'ServicePort' for i in owned):
             out.append('owned-serviceport')
-    if kind == 'unpeer':
-        # really peered: a ServicePort of each, facing each other over a link
-        direct = False
-        for sp in ifs_of_ns(a[0]):
-            for (l, y) in g.peers(sp):
-                if a[1] in g.nb(y, 'connects', NS) and g.typ(sp) == 'ServicePort' and g.typ(y) == 'ServicePort':
-                    direct = True
-        if not direct:
-            out.append('not-peered')
     if kind in ('connect', 'add_ns', 'add_pm'):
         # connect_interface derives the names of the service port and of the link from <owner node>-<interface>
         def owner_name(i):
